@@ -148,7 +148,7 @@ def main(c):
         if fl != "true" and nfail == 0:
             c.report("model:" + cases[i][0].hex(), "the Gallina model (folds of replace_all over the table) disagrees with getMangledString/tfel-unicode-filt on %r"
                      % cases[i][0].decode("utf-8", "replace"), {"original_hex": cases[i][0].hex(), "real_mangled_hex": real[i].hex()}, False)
-    res = c.coq(deps + ["C33Model.v", "C33General.v", gen, "C33Proofs.v", "Properties_C33.v"], timeout=900)
+    res = c.coq(deps + ["C33Model.v", "C33General.v", gen, "C33TableOk.v", "C33Proofs.v", "Properties_C33.v"], timeout=900)
     if not res.ok:
         if nfail:
             c.notes.append("proof obligations failed: %s; concrete failing inputs reported above" % [f[2] or f[0] for f in res.failed])
